@@ -110,6 +110,15 @@ func (s *RoundTrip) Run(env *core.Env, st *core.Stats) (vs []core.Violation) {
 			st.ReachKey("division-metric")
 		}
 		st.ReachKey(fmt.Sprintf("norunningstatus-%v", s.Hist.NoRS))
+		for _, op := range s.Hist.Ops {
+			if op.Op == "write" {
+				st.Probe("write-in-the-middle-of-the-history")
+			}
+			if op.Op == "reload" {
+				st.Probe("continue-building-on-a-value-that-was-read")
+			}
+		}
+		st.ProbeIf(s.Hist.Logger, "logger-set")
 		if nontrivial {
 			st.Distinct(h)
 		}
@@ -249,7 +258,7 @@ func (s *RoundTrip) Run(env *core.Env, st *core.Stats) (vs []core.Violation) {
 				add(true, core.V("file-api", "content", "ReadFile differs from what was built: %s", d))
 			}
 		}
-		os.Remove(path)
+		// the file is left in place: the next WriteFile of this process overwrites a file of another length
 		val3, _, _ := s.Hist.Build()
 		var e2 error
 		g2 := guarded(libBudget, false, func() { e2 = val3.WriteFile(dir + "/no-such-dir/x.mid") })
